@@ -370,6 +370,15 @@ pub fn gen_tree(
                 world.put_file(&p, screen.gen_text(rng).into_bytes(), Fault::None);
                 info.eligible.push(p);
             }
+            6 | 7 => {
+                // one file with several hundred matches of the same patterns
+                let t = crate::corpus::many_matches_text(rng.range(800, 1200));
+                let p = join(root, "many.sol");
+                if !world.nodes.contains_key(&p) && screen.ok(&t) {
+                    world.put_file(&p, t.into_bytes(), Fault::None);
+                    info.eligible.push(p);
+                }
+            }
             4 | 5 => {
                 // a very tall file: findings beyond line 65 536
                 let t = screen.gen_text(rng);
